@@ -361,7 +361,7 @@ def compare(ctx, rule, fa, ref_source, module=None, known=(), ignore=None, why='
                    reason=why)
     # leftovers: compare in case-split normal form (conditional expressions lifted into path
     # conditions, then equality of the guarded commands as boolean functions of the tests)
-    if extra and remaining:
+    if extra or remaining:
         n_before = len(extra)
         extra, remaining = _semantic_match(extra, remaining)
         if n_before != len(extra):
@@ -599,7 +599,7 @@ def _semantic_match(extra, remaining):
         out = []
         for i, (p, gs, e) in enumerate(lst):
             for p2, G in _lift_one(p, {c for c, _ in gs}):
-                if not _noop(p2):
+                if not _noop(p2) and p2 != ('return', T.NONE):
                     out.append((p2, G, i))
         return out
     F = lifted(extra, 'f')
